@@ -230,6 +230,8 @@ def model_json(run, m):
 def calls_json(run, m):
     out = []
     for c in run.calls:
+        if c.get("contract"):
+            continue        # a real function used through its contract: nothing to mock at replay
         e = {"name": c["name"], "outcome": c["outcome"]}
         v = c.get("value")
         if isinstance(v, (VInt, VReal, VBool, VStr)):
@@ -720,7 +722,7 @@ class Verifier:
         limit = int(os.environ.get("PYVC_XCHECK_MAX", "40"))
         if len(fr.xchecks) >= limit:
             return
-        opaque = [c_ for c_ in run.calls if c_.get("outcome") == "return" and not isinstance(c_.get("value"), (VInt, VReal, VBool, VStr, VNone, VEnum))]
+        opaque = [c_ for c_ in run.calls if not c_.get("contract") and c_.get("outcome") == "return" and not isinstance(c_.get("value"), (VInt, VReal, VBool, VStr, VNone, VEnum))]
         if getattr(run, "cut", False) or run.abstractions or run.imprecise or run.contract_calls or c.options.get("closure") or c.pre_state \
                 or getattr(run, "externals", 0) or opaque:
             fr.xskipped += 1
